@@ -84,4 +84,35 @@ theorem py_stop_eq_model (s : State) :
       stopChangesToIdle = true := by
   refine ⟨by simp [Control.stop, stopP, fsmTo, ctl], by simp [stopP, fsmTo], by decide⟩
 
+/-! ## `_close` -/
+
+/-- the translated `_close` run on the model's state (the rig's neighbors have an `api` section) -/
+def pyClose (s : State) : PyRes CloseSt Unit :=
+  Close._close ⟨s.conn.isSome, false, false, false⟩ (!(s.fsm == .idle || s.fsm == .active)) true s.cfg.changes
+
+/-- `Peer._close` as translated from /repo: `processes.down` is called exactly when the FSM is beyond ACTIVE and
+    the neighbor reports its changes, the FSM is told to go to IDLE, the connection in hand is closed exactly when
+    there is one, and `peer.proto` is None afterwards. -/
+theorem py_close_result (s : State) :
+    pyClose s = .ret () ⟨false, (!(s.fsm == .idle || s.fsm == .active)) && s.cfg.changes, true, s.conn.isSome⟩ := by
+  unfold pyClose Close._close
+  cases s.conn <;> cases s.cfg.changes <;> cases hf : s.fsm <;> simp
+
+/-- ... and that is `closeP` of the model: it writes `down` for the API exactly when the translated method calls
+    `processes.down` and the API process is alive, it leaves the FSM in IDLE, it closes the transport exactly when
+    the translated method calls `proto.close`, and there is no connection afterwards. -/
+theorem py_close_is_closeP (s : State) :
+    (Out.down ∈ (closeP s).2 ↔ ((!(s.fsm == .idle || s.fsm == .active)) && s.cfg.changes) = true ∧ s.dead = false) ∧
+    (closeP s).1.fsm = .idle ∧ (closeP s).1.conn = none ∧
+    ((∃ i, Out.close i ∈ (closeP s).2) ↔ s.conn.isSome = true) ∧ closeChangesToIdle = true := by
+  refine ⟨?_, ?_, ?_, ?_, by decide⟩
+  · unfold closeP apiDown fsmTo closeConn R.andThen
+    cases hc : s.conn <;> cases hch : s.cfg.changes <;> cases hd : s.dead <;> cases hf : s.fsm <;> simp [hc, hch, hd, hf]
+  · unfold closeP apiDown fsmTo closeConn R.andThen
+    cases hc : s.conn <;> cases hf : s.fsm <;> simp [hc, hf]
+  · unfold closeP apiDown fsmTo closeConn R.andThen
+    cases hc : s.conn <;> cases hf : s.fsm <;> simp [hc, hf]
+  · unfold closeP apiDown fsmTo closeConn R.andThen
+    cases hc : s.conn <;> cases hch : s.cfg.changes <;> cases hd : s.dead <;> cases hf : s.fsm <;> simp [hc, hch, hd, hf]
+
 end Exa.Session
